@@ -801,6 +801,8 @@ func runLinks(cases string, out *vio.Out, le *logrus.Entry) {
 			if _, err := ctrl.GetTransport(ctx); err != nil {
 				vio.Fatal("%v", err)
 			}
+			gt, _ := ctrl.GetTransport(ctx)
+			qt := gt.(*dialerTpt)
 			ids := map[string]peer.ID{"X": vio.PeerID("quicnet/X"), "Y": vio.PeerID("quicnet/Y")}
 			nodes := map[string]*qnode{}
 			lnks := map[string]link.Link{}
@@ -837,6 +839,32 @@ func runLinks(cases string, out *vio.Out, le *logrus.Entry) {
 				} else {
 					delete(occ, e.A)
 				}
+				// the transport's own address table (Transport.links): the current link of an address is the open link of its occupant
+				curState := func() map[string]any {
+					out := map[string]any{}
+					for _, a := range []string{"S", "T"} {
+						out[a] = map[string]any{"id": "", "closed": false}
+						if l, ok := qt.LookupLinkWithAddr("addr" + a); ok && l != nil {
+							nm := "?"
+							for name, id := range ids {
+								if l.GetRemotePeer() == id {
+									nm = name
+								}
+							}
+							out[a] = map[string]any{"id": nm, "closed": l.GetContext().Err() != nil}
+						}
+					}
+					return out
+				}
+				curOK := func() bool {
+					for a, v := range curState() {
+						m := v.(map[string]any)
+						if m["id"] != occ[a] || m["closed"] == true {
+							return false
+						}
+					}
+					return true
+				}
 				read := func() ([]map[string]any, bool) {
 					rep := []map[string]any{}
 					good := true
@@ -861,7 +889,7 @@ func runLinks(cases string, out *vio.Out, le *logrus.Entry) {
 							seen[a] = name
 						}
 					}
-					return rep, good && len(seen) == len(occ)
+					return rep, good && len(seen) == len(occ) && curOK()
 				}
 				// "the registry eventually equals the sessions still open": at least the idle timeout, then until it is right or the bound expires
 				time.Sleep(100 * time.Millisecond)
@@ -875,7 +903,7 @@ func runLinks(cases string, out *vio.Out, le *logrus.Entry) {
 					time.Sleep(150 * time.Millisecond)
 					rep, _ = read()
 				}
-				evs = append(evs, map[string]any{"e": "obs", "reported": rep})
+				evs = append(evs, map[string]any{"e": "obs", "reported": rep, "cur": curState()})
 			}
 			for _, nd := range nodes {
 				nd.stop()
